@@ -22,6 +22,10 @@ VOCABS: dict[str, list[str]] = {
     ],
     "defs": ["def", "lambda", "(", ")", ",", ":", "=", "*", "**", "/", "->", "@", "a", "b", "1", "class", NL, IND, "pass", "[", "]"],
     "match": ["match", "case", "_", "|", "as", "(", ")", "[", "]", "{", "}", ":", ",", "*", "**", "a", "1", "'s'", ".", NL, IND, "-", "="],
+    "lit": [
+        "'s'", "b's'", "f's'", "f'{a}'", "rb's'", "u's'", "'''t'''", "'\\x'", "1", "1.5", "1j", "0x1", "a", "+", "(", ")", ",", "%", "-",
+        "=", "p's'", "pf'{a}'",
+    ],
     "xsh": [
         "$", "${", "$(", "$[", "!(", "![", "@(", "@$(", ")", "]", "}", "?", "??", "!", "&&", "||", "a", "1", "'s'",
         "-l", "|", "=", NL, "with", ":", IND, ",", ">", "`a`", "p'a'",
